@@ -43,6 +43,46 @@ type Timer struct {
 	C <-chan Time
 }
 
+// NewTimer / After / Tick deliver the (virtual) time on a native channel when they fire.
+func NewTimer(d Duration) *Timer {
+	if vsched.X == nil {
+		panic("vtime.NewTimer in sequential mode")
+	}
+	vsched.Op("time.NewTimer", nil, 0, nil)
+	ch := make(chan Time, 1)
+	var vt *vsched.VTimer
+	vt = vsched.NewTimer(int64(d), "chantimer", func() {
+		select {
+		case ch <- Epoch.Add(time.Duration(vsched.X.Now)):
+			vsched.Touch(vsched.ObjOf(ch, "chan"), vsched.WR|vsched.REL)
+			vsched.Mutated()
+		default:
+		}
+	})
+	vt.Inline = true
+	return &Timer{t: vt, C: ch}
+}
+
+func After(d Duration) <-chan Time { return NewTimer(d).C }
+
+type Ticker struct {
+	t *vsched.VTimer
+	C <-chan Time
+}
+
+func NewTicker(d Duration) *Ticker {
+	tm := NewTimer(d)
+	tm.t.Period = int64(d)
+	return &Ticker{t: tm.t, C: tm.C}
+}
+func (t *Ticker) Stop() { vsched.Op("ticker.Stop", t.t.Obj, vsched.RD|vsched.WR, nil); t.t.Stop() }
+func (t *Ticker) Reset(d Duration) {
+	vsched.Op("ticker.Reset", t.t.Obj, vsched.RD|vsched.WR, nil)
+	t.t.Period = int64(d)
+	t.t.Reset(int64(d))
+}
+func Tick(d Duration) <-chan Time { return NewTicker(d).C }
+
 func AfterFunc(d Duration, f func()) *Timer {
 	if vsched.X == nil {
 		panic("vtime.AfterFunc in sequential mode")
